@@ -26,6 +26,7 @@ FILES = {
     "OSq.Sem.Rot": {"C08": ["OSq.Sem.rot_unitary", "OSq.Mat.toMatrix"], "C15": ["OSq.Sem.rot_add", "OSq.Sem.rot_neg_neg", "OSq.Sem.rot_phase"]},
     "OSq.Proofs.Graph": {"C18": None},
     "OSq.Proofs.Graph2": {"C18": None},
+    "OSq.Proofs.Graph3": {"C18": ["OSq.graph_mapQ", "OSq.graph_remap"], "C03": ["OSq.graph_remap_edge"]},
     "OSq.Proofs.SplitOn": {"C04": None},
     "OSq.Proofs.ShapeReal": {"C10": None},
     "OSq.Proofs.MergeSemReal": {"C02": None},
